@@ -3,13 +3,12 @@ from importlib.machinery import SourceFileLoader
 import re
 import stat
 
-from pygopherd.handlers.base import VFS_Real
 from pygopherd.handlers.virtual import Virtual
 
 
 class PYGHandler(Virtual):
     def canhandlerequest(self) -> bool:
-        if not isinstance(self.vfs, VFS_Real):
+        if not self.vfs.isreal():
             return False
 
         if not (
